@@ -84,18 +84,20 @@ def main():
     ck = Check("C19")
     if ck.replay:
         body = json.load(open(os.path.join(VERIF, ck.replay) if not os.path.isabs(ck.replay) else ck.replay))
-        run_case(ck, body["case"])
+        ck.guard(run_case, ck, body["case"])
         ck.finish(rule="replay of one recorded case")
     ck.lean_obligations("CvProps.C19", THEOREMS)
     for case in json.load(open(os.path.join(VERIF, "harness", "corpus", "C19.json"))):
-        run_case(ck, case)
+        ck.guard(run_case, ck, case)
         ck.count("corpus")
     for _ in range(250 if not ck.thorough else 6000):
         if ck.enough():
             break
-        run_case(ck, gen_case(ck))
+        ck.guard(run_case, ck, gen_case(ck))
     ck.finish(rule="generated permutation and matrix graphs (any state shape) x batches containing the central state, an all-different state and random states x batch sizes 1..len+2; judged by the mismatch count computed in plain Python")
 
 
 if __name__ == "__main__":
-    main()
+    from cv.core import run_main
+
+    run_main(main)
